@@ -139,15 +139,17 @@ def split_histories(path):
     return hs
 
 
-def _validate_batch(spec_dir, module, cfg, lines, tag):
+def _validate_batch(spec_dir, module, cfg, lines, tag, timeout=900):
     """Runs one TLC trace validation; returns (accepted, first_unmatched_index (1-based) or None, output)."""
     wd = workdir()
     path = os.path.join(wd, "trace_%s.ndjson" % tag)
     with open(path, "w") as f:
         f.write("\n".join(lines) + "\n")
-    code, out = tlc(spec_dir, module, cfg, env={"TRACE": path}, workers=1, timeout=900,
-                    metadir=os.path.join(wd, "md_" + tag))
-    os.unlink(path)
+    try:
+        code, out = tlc(spec_dir, module, cfg, env={"TRACE": path}, workers=1, timeout=timeout,
+                        metadir=os.path.join(wd, "md_" + tag))
+    finally:
+        os.unlink(path)
     if code == 0 and "No error has been found" in out:
         return True, None, out
     m = re.search(r'<<"REJECT", (\d+),', out)
@@ -166,14 +168,19 @@ def with_kf(lines, kf):
     return [json.dumps(r, separators=(",", ":"))] + lines[1:]
 
 
-def validate_histories(spec_dir, module, cfg, histories, kf_for=None, batch_records=4000, jobs=8, max_reports=25):
+def validate_histories(spec_dir, module, cfg, histories, kf_for=None, batch_records=2500, jobs=8, max_violations=3,
+                       batch_timeout=420):
     """Trace-validates histories (lists of lines) against a Layer A trace spec.
 
-    Phase 1: strict (no deviations). A rejected history is re-validated alone with the
-    deviation actions of the open known findings enabled (kf_for(history) -> list of ids);
-    accepted then = KNOWN-FINDING, else VIOLATION.
-    Returns dict(validated, accepted, known=[...], violations=[...]).
+    Phase 1: strict (no deviations), many histories per TLC run. A rejected history is at once
+    re-validated alone with the deviation actions of the open known findings enabled
+    (kf_for(history) -> list of ids); accepted then = KNOWN-FINDING, else VIOLATION.
+    Stops early once `max_violations` violations are confirmed (the verdict is settled).
+    A TLC run that exceeds its time limit is split; a single history that cannot be decided
+    within the limit is reported under `undecided` (inconclusive, never a verdict).
+    Returns dict(validated, accepted, known=[...], violations=[...], undecided=[...]).
     """
+    import threading
     batches, cur, n = [], [], 0
     for idx, h in enumerate(histories):
         cur.append((idx, h))
@@ -183,50 +190,70 @@ def validate_histories(spec_dir, module, cfg, histories, kf_for=None, batch_reco
             cur, n = [], 0
     if cur:
         batches.append(cur)
-    rejected = []
+    lock = threading.Lock()
+    known, violations, undecided = [], [], []
     counter = [0]
+    checked = [0]
+    stop = threading.Event()
 
-    def run_batch(batch):
-        out_rej = []
-        while batch:
-            lines = []
-            bounds = []
-            for idx, h in batch:
-                bounds.append((len(lines) + 1, len(lines) + len(h), idx))
-                lines.extend(h)
-            counter[0] += 1
-            ok, at, out = _validate_batch(spec_dir, module, cfg, lines, "b%d_%d" % (os.getpid(), time.time_ns()))
-            if ok:
-                break
-            pos = next(i for i, (lo, hi, idx) in enumerate(bounds) if lo <= at <= hi)
-            lo, hi, idx = bounds[pos]
-            out_rej.append({"history": idx, "record_index": at - lo + 1, "record": lines[at - 1]})
-            batch = batch[pos + 1:]
-        return out_rej
-
-    with cf.ThreadPoolExecutor(max_workers=jobs) as ex:
-        for r in ex.map(run_batch, batches):
-            rejected.extend(r)
-
-    known, violations = [], []
+    def tag():
+        return "b%d_%d" % (os.getpid(), time.time_ns())
 
     def second(rj):
         h = histories[rj["history"]]
         kf = kf_for(h) if kf_for else []
         if kf:
-            ok, at, out = _validate_batch(spec_dir, module, cfg, with_kf(h, kf),
-                                          "k%d_%d" % (os.getpid(), time.time_ns()))
+            try:
+                ok, at, out = _validate_batch(spec_dir, module, cfg, with_kf(h, kf), tag(), timeout=batch_timeout)
+            except ToolError:
+                return ("undecided", rj)
             if ok:
                 devs = sorted(set(re.findall(r'"DEV", "(\w+)"', out)))
                 return ("known", dict(rj, devs=devs or kf))
             rj = dict(rj, record_index_with_devs=at)
         return ("violation", rj)
 
+    def run_batch(batch):
+        while batch and not stop.is_set():
+            lines, bounds = [], []
+            for idx, h in batch:
+                bounds.append((len(lines) + 1, len(lines) + len(h), idx))
+                lines.extend(h)
+            with lock:
+                counter[0] += 1
+            try:
+                ok, at, out = _validate_batch(spec_dir, module, cfg, lines, tag(), timeout=batch_timeout)
+            except ToolError as e:
+                if "timeout" not in str(e):
+                    raise
+                if len(batch) == 1:
+                    with lock:
+                        undecided.append({"history": batch[0][0], "why": "TLC time limit"})
+                    return
+                mid = len(batch) // 2
+                run_batch(batch[:mid])
+                run_batch(batch[mid:])
+                return
+            if ok:
+                with lock:
+                    checked[0] += len(batch)
+                return
+            pos = next(i for i, (lo, hi, idx) in enumerate(bounds) if lo <= at <= hi)
+            lo, hi, idx = bounds[pos]
+            rj = {"history": idx, "record_index": at - lo + 1, "record": lines[at - 1]}
+            kind, rj = second(rj)
+            with lock:
+                checked[0] += pos + 1
+                {"known": known, "violation": violations, "undecided": undecided}[kind].append(rj)
+                if len(violations) >= max_violations:
+                    stop.set()
+            batch = batch[pos + 1:]
+
     with cf.ThreadPoolExecutor(max_workers=jobs) as ex:
-        for kind, rj in ex.map(second, rejected[:400]):
-            (known if kind == "known" else violations).append(rj)
-    return {"validated": len(histories), "accepted": len(histories) - len(rejected), "known": known,
-            "violations": violations, "tlc_runs": counter[0]}
+        list(ex.map(run_batch, batches))
+    rejected = len(known) + len(violations) + len(undecided)
+    return {"validated": checked[0], "accepted": checked[0] - rejected, "known": known,
+            "violations": violations, "undecided": undecided, "tlc_runs": counter[0], "stopped_early": stop.is_set()}
 
 
 # --------------------------------------------------------------------------- known findings
